@@ -114,6 +114,22 @@ def boundary_sizes(m):
     return sorted(set(x for x in [0, 1, 2, c - 1, c, c + 1, 2 * c, 2 * c + 1, m - 9, m - 8, m - 7, m - 1, m, m + 1, int(3.5 * c), 3 * c - 8] if x >= 0))
 
 
+def exact_fill_sizes(m, spec_len):
+    """File sizes for which a DATA record ends exactly at (or next to) the end of the maxdata-sized send buffer."""
+    c = chunk_size_for(m)
+    out = []
+    for T in (m - 9, m - 8, m - 2, m - 1, m, m + 1, m + 2, m + 8):
+        # buffer holds SEND record (8+spec_len) followed by k full DATA records (8+c each) and a last record of r bytes
+        k = max(0, (T - 8 - spec_len - 9) // (c + 8))
+        for kk in (k, k - 1):
+            if kk < 0:
+                continue
+            r = T - 8 - spec_len - kk * (c + 8) - 8
+            if 0 < r <= c:
+                out.append(kk * c + r)
+    return out or [m]
+
+
 SHELL_CMDS = ["ls", "echo hi", "id", "getprop ro.x", "cat /proc/ü"]
 DEV_PATHS = ["/sdcard/a.bin", "/data/local/tmp/b", "/f", "/ü/文件.txt", "/missing"]
 DIR_PATHS = ["/sdcard", "/d", "/empty"]
@@ -140,16 +156,24 @@ def session(draw, max_ops=5, ops_allowed=None, big=True, with_frag=False, with_w
     n = draw(st.integers(1, max_ops))
     ops = []
     services = {}
+    paced = {}
     total = 2000
     for i in range(n):
         kind = draw(st.sampled_from(allowed))
         if kind in ("shell", "exec_out", "streaming_shell"):
             cmd = draw(st.sampled_from(SHELL_CMDS)) + (" #%d" % i)
             chunks = draw(small_chunks())
+            if fail_plans and chunks and draw(st.sampled_from([False] * 5 + [True])):
+                chunks = list(chunks)
+                chunks.insert(draw(st.integers(0, len(chunks))), b"")      # a zero-length WRTE (unusual, but a WRITE like any other)
             services[(b"exec:" if kind == "exec_out" else b"shell:") + cmd.encode()] = chunks
             o = {"op": kind, "cmd": cmd, "decode": draw(st.booleans())}
             if fail_plans and kind == "streaming_shell" and chunks and draw(st.booleans()):
                 o["take"] = draw(st.integers(1, len(chunks)))      # the caller abandons the generator after `take` items
+            elif fail_plans and kind in ("shell", "exec_out") and draw(st.sampled_from([False, False, True])):
+                # a slow command with a whole-command limit: output and the final CLSE arrive at drawn (virtual) times around the limit
+                paced[(b"exec:" if kind == "exec_out" else b"shell:") + cmd.encode()] = draw(st.lists(st.sampled_from([0.0, 0.2, 0.6, 0.7, 1.3]), min_size=1, max_size=4))
+                o["timeout_s"] = draw(st.sampled_from([1.0, 0.5, 2.0]))
             ops.append(o)
             total += sum(len(c) for c in chunks)
         elif kind == "root":
@@ -169,13 +193,18 @@ def session(draw, max_ops=5, ops_allowed=None, big=True, with_frag=False, with_w
             f = files.get(path.encode())
             total += f["content"]["n"] if f else 0
         else:
+            ppath = draw(st.sampled_from(DEV_PATHS))
+            pmode = draw(st.sampled_from([0o100770, 0o100644, 0, 0o177777]))
             spec = draw(content_spec(sizes=sizes))
-            ops.append({"op": "push", "src": {"kind": "bytesio", "content": spec}, "path": draw(st.sampled_from(DEV_PATHS)),
-                        "mode": draw(st.sampled_from([0o100770, 0o100644, 0, 0o177777])), "mtime": draw(st.one_of(st.just(0), u32())),
+            if draw(st.sampled_from([False, False, True])):
+                # sizes that make a DATA record end exactly at (or within a few bytes of) the end of the send buffer
+                spec = {"pat": spec["pat"], "n": draw(st.sampled_from(exact_fill_sizes(m, len(("%s,%d" % (ppath, pmode)).encode("utf8")))))}
+            ops.append({"op": "push", "src": {"kind": "bytesio", "content": spec}, "path": ppath,
+                        "mode": pmode, "mtime": draw(st.one_of(st.just(0), u32())),
                         "cb": draw(st.sampled_from([None, None, "rec", "raise"]))})
             total += spec["n"]
     dev = {
-        "maxdata": m, "services": services, "fs": files, "dirs": dirs,
+        "maxdata": m, "services": services, "fs": files, "dirs": dirs, "pace": paced, "allow_empty_wrte": bool(fail_plans),
         "rids": draw(rid_list()),
         "cuts": draw(st.one_of(st.none(), st.lists(st.one_of(st.sampled_from([1, 2, 3, 7, 8, 9, 19, 20, 21, 4096, 65536, 65544]), st.integers(1, 200000)), min_size=1, max_size=6))),
         "recv_sizes": draw(st.one_of(st.none(), st.lists(st.one_of(st.sampled_from([1, 2, 65535, 65536]), st.integers(1, 65536)), min_size=1, max_size=5))),
